@@ -84,14 +84,19 @@ Section Runs.
   Definition repeated (c : cand) (offs : list cand) : bool :=
     existsb (fun o => veq (snd c) (snd o)) offs.
 
-  (* body of the while loop for one pair of mutated children (v1, v2) *)
-  Definition gen_step (N : nat) (offs : list cand) (ctr : nat) (vv : V * V) : list cand :=
-    let c1 := (ctr, fst vv) in
-    let c2 := (S ctr, snd vv) in
-    let o1 := match offs with [] => [c1] | _ :: _ => offs end in
-    let o2 := if repeated c1 o1 && (length o1 <? N) then o1 else o1 ++ [c1] in
+  (* body of the while loop for one pair of mutated children (v1, v2):
+       if len(offsprings) == 0: offsprings.append(child1)
+       if any(child1 == o ...) and len(offsprings) < N: pass  else: offsprings.append(child1)
+       if any(child2 == o ...) and len(offsprings) < N: pass  elif len(offsprings) < N: offsprings.append(child2) *)
+  Definition gen_first (offs : list cand) (c1 : cand) : list cand :=
+    match offs with [] => [c1] | _ :: _ => offs end.
+  Definition gen_add1 (N : nat) (c1 : cand) (o1 : list cand) : list cand :=
+    if repeated c1 o1 && (length o1 <? N) then o1 else o1 ++ [c1].
+  Definition gen_add2 (N : nat) (c2 : cand) (o2 : list cand) : list cand :=
     if repeated c2 o2 && (length o2 <? N) then o2
     else if length o2 <? N then o2 ++ [c2] else o2.
+  Definition gen_step (N : nat) (offs : list cand) (ctr : nat) (vv : V * V) : list cand :=
+    gen_add2 N (S ctr, snd vv) (gen_add1 N (ctr, fst vv) (gen_first offs (ctr, fst vv))).
 
   (* the stream is the fuel; a stream that ends before N offspring exist, or that is not used
      up when the loop stops, does not describe a terminating call: None *)
@@ -304,7 +309,8 @@ Section Runs.
   Record pgen_in : Type := mk_pgen { pg_vecs : list V; pg_eval : list (ev_entry V C); pg_perm : list nat }.
 
   Definition is_perm_of_positions (perm : list nat) (n : nat) : bool :=
-    Nat.eqb (length perm) n && forallb (fun i => existsb (Nat.eqb i) perm) (seq 0 n).
+    Nat.eqb (length perm) n && forallb (fun i => i <? n) perm &&
+    forallb (fun i => existsb (Nat.eqb i) perm) (seq 0 n).
   Definition permute {A : Type} (perm : list nat) (l : list A) : list A :=
     flat_map (fun i => match nth_error l i with Some x => [x] | None => [] end) perm.
 
